@@ -143,4 +143,7 @@ theorem src_drop_and_delegation :
     EncoderResult_drop_calls_reset_received = true ∧ DecoderResult_drop_calls_reset_received = true ∧
     EncoderResult_recovery_delegates = true ∧ DecoderResult_restored_original_delegates = true := ⟨rfl, rfl, rfl, rfl⟩
 
+/-- constructing a result object does nothing but borrow the work object (`Self { work }`) -/
+theorem src_result_new : EncoderResult_new_is_the_work = true ∧ DecoderResult_new_is_the_work = true := ⟨rfl, rfl⟩
+
 end RS.SrcI
